@@ -24,7 +24,8 @@ def table_ops(p, tfield):
             ops.append(("set", strip_epochs(e.index), strip_epochs(e.value), e))
         elif e.kind == "call" and e.target is None and e.recv is not None and strip_epochs(e.recv) == ("f", SELF, tfield, 0) \
                 and e.name in ("pop", "clear", "popitem", "update", "setdefault", "__delitem__"):
-            ops.append((e.name, strip_epochs(e.args[0]) if e.args else None, None, e))
+            # `del table[k]` removes exactly what `table.pop(k)` removes
+            ops.append(("pop" if e.name == "__delitem__" else e.name, strip_epochs(e.args[0]) if e.args else None, None, e))
         elif e.kind == "setfield" and e.name == tfield and e.base == SELF:
             ops.append(("rebind", None, strip_epochs(e.value), e))
     return ops
@@ -168,7 +169,8 @@ def heavy_hitters(prog, rep):
                     good = False
             if e.kind == "setfield" and e.base == SELF and e.name == "_HeavyHitters__smallest":
                 v = strip_epochs(e.value)
-                okv = v[0] == "sub" and v[1] == table and v[2][0] == "call" and v[2][1] == ("g", "min") and v[2][2] == (table,)
+                okv = (v[0] == "sub" and v[1] == table and v[2][0] == "call" and v[2][1] == ("g", "min") and v[2][2] == (table,)) or \
+                    v == ("call", ("g", "min"), (("call", ("m", table, "values"), (), ()),), ())
                 if not okv:
                     rep.bad("C17.hitters-bookkeeping", where, f"smallest = {nshow(v)}", "the cached smallest value is not the minimum over the table", e.where())
                     good = False
@@ -176,7 +178,7 @@ def heavy_hitters(prog, rep):
         if "room" in seen and sets and not pops and room <= {LT}:
             isnew = any(strip_epochs(c.atom) == ("cmp", "is", ("call", ("m", table, "get"), (key, C(None)), ()), C(None)) and c.truth for c in p.conds)
             refreshed = any(e.kind == "setfield" and e.name == "_HeavyHitters__top_x_size" for e in p.events)
-            if isnew and not refreshed:
+            if (isnew or member is False) and not refreshed:
                 rep.bad("C17.hitters-bookkeeping", where, "size not refreshed", "a new key is recorded without refreshing the tracked-key count", f.where())
                 good = False
     if good:
